@@ -9,7 +9,7 @@
    value) and the mapping built by rename_labels(generator=...) (k-th label of labels() -> k-th
    value). Generated values are pairwise distinct (C19). Statements only. *)
 From PV Require Import Model.AnnotationOps Proofs.DictP Proofs.AnnotationInvP Proofs.RenameSubsetP
-  Proofs.AnnCropInterP Proofs.AnnRenameTracksP Proofs.DerivedInvP.
+  Proofs.AnnCropInterP Proofs.AnnRenameTracksP Proofs.DerivedInvP Proofs.AnnOverlapP.
 
 (* every track keeps its segment and name and gets mapping.get(label, label): applied once, simultaneously *)
 Theorem C11_rename_applies_mapping_once : forall a mapping s t,
@@ -36,6 +36,10 @@ Theorem C11_rename_in_place_keeps_views_fresh : forall eps a mapping,
   AInv eps a -> AInv eps (rename_labels_inplace a mapping).
 Proof. exact AInv_rename. Qed.
 
+(* subset(L): L is read as a set of labels, whatever container it came in (order and repetitions are immaterial) *)
+Theorem C11_subset_label_request_is_a_set : forall eps a l1 l2 inv, (forall x, In x l1 <-> In x l2) ->
+  subset_ann eps a l1 inv = subset_ann eps a l2 inv.
+Proof. exact subset_ann_request_is_a_set. Qed.
 (* subset(L) keeps exactly the tracks whose label is in L, subset(L, invert=True) exactly the others *)
 Theorem C11_subset_exact : forall eps a labs inv s t, AInv eps a ->
   getitem (subset_ann eps a labs inv) s t =
@@ -102,6 +106,7 @@ Print Assumptions C11_chain_not_applied_twice.
 Print Assumptions C11_rename_on_copy_gives_same_content.
 Print Assumptions C11_rename_in_place_keeps_views_fresh.
 Print Assumptions C11_subset_exact.
+Print Assumptions C11_subset_label_request_is_a_set.
 Print Assumptions C11_subset_partition.
 Print Assumptions C11_subset_adds_nothing.
 Print Assumptions C11_rename_tracks.
